@@ -32,7 +32,7 @@ pub fn check_message(cmd: u8, model: &Value, msg: &[u8]) -> Result<(), (String, 
 }
 
 fn run_cmd(cmd: u8, src: &mut Src, obs: &mut Obs) -> CaseResult {
-    let mut info = Info::default();
+    let mut info = Info { foreign_members: true, ..Info::default() };
     let model = gen_for(cmd, src, &mut info);
     let msg = message(cmd, &model);
     obs.label(cmd_name(cmd));
